@@ -29,10 +29,17 @@ CONTENTS["cmulti"] = b"".join(b'{"i":%d}\n' % i for i in range(20000))   # 20 00
 FILES = {
     "good.json": "cj", "bad.json": "cbad", "null.json": "cnull", "doc.yaml": "cy", "UP.YML": "ceq", "conf.toml": "ct",
     "big.json": "cbig", "bigbad.json": "cbigbad", "huge.json": "chuge", "multi.json": "cmulti",
-    "empty.yaml": "cempty", "empty.json": "cempty",
+    "empty.yaml": "cempty", "empty.json": "cempty", "bigstr.json": "cbigstr",
     "data.msgpack": "cm", "noext": "cy", "text.txt": "ctext", "wrong.json": "cy", "a.b.yaml": "ceq", ".yaml": "ct", "Mixed.JsOn": "cy",
 }
 CONTENTS["cempty"] = b""
+# > 8 KiB of compact JSON output in which a separator / a digit falls on the 8192nd byte (both parities)
+CONTENTS["calign0"] = b'["",' + b",".join([b"1"] * 6000) + b"]\n"
+CONTENTS["calign1"] = b'["x",' + b",".join([b"1"] * 6000) + b"]\n"
+CONTENTS["calign2"] = b'{"a":"",' + b",".join(b'"k%d":1' % i for i in range(1500)) + b"}\n"
+CONTENTS["calign3"] = b'{"a":"x",' + b",".join(b'"k%d":1' % i for i in range(1500)) + b"}\n"
+# one string of 9000 characters, a line feed, 3000 more: MessagePack writes its payload in a single write_all of > 8 KiB
+CONTENTS["cbigstr"] = b'["' + b"a" * 9000 + b"\\n" + b"b" * 3000 + b'"]\n'
 # operands that reach the library as a reader although they are named by a path: a FIFO (mmap fails).
 # (An EMPTY regular file does get mapped - memmap2 returns an empty mapping - so it is slice input, and an
 # empty YAML file therefore meets the recorded yaml_void deviation: error from a file, nothing from a pipe.)
@@ -189,6 +196,12 @@ def run_real(binary, argv, root, stdout_kind, stdin_bytes):
         os.close(master)
         rc = p.returncode
         return {"exit": rc if rc >= 0 else None, "signal": -rc if rc < 0 else 0, "stdout": out.replace(b"\r\n", b"\n"), "stderr": err, "timeout": False}
+    if stdout_kind == "stdinfile":
+        # standard input redirected from a REGULAR FILE (xt < file): still a stream to xt, never a mapping
+        path = os.path.join(root, "stdin-content.bin")
+        with open(path, "wb") as f:
+            f.write(stdin_bytes)
+        return cli.run_xt(binary, argv, stdin_path=path, cwd=cwd, timeout=30)
     if stdout_kind == "file":
         path = os.path.join(root, "out-%d-%d.bin" % (os.getpid(), id(argv) % 100000))
         with open(path, "wb") as f:
